@@ -453,9 +453,46 @@ def rule_callbacks(repo, col):
                       % (unparse(cond.test, 60) if cond is not None else ''))
     col.soft(k >= 2, rule, TABLE, 'Table.merge', 'instances', fn,
              '%d callback calls' % k, 'callback calls not found')
+    # a nested helper that calls the function it is handed
+    helpers = {}
+    for d in ast.walk(fn):
+        if isinstance(d, ast.FunctionDef) and d is not fn:
+            ps = [a.arg for a in d.args.args]
+            calls_param = {p_ for p_ in ps if any(
+                isinstance(n, ast.Call) and isinstance(n.func, ast.Name) and
+                n.func.id == p_ for n in ast.walk(d))}
+            if calls_param:
+                helpers[d.name] = (ps, calls_param)
+    handed = {}
+    for n in ast.walk(fn):
+        if isinstance(n, ast.Call) and isinstance(n.func, ast.Name) and \
+                n.func.id in helpers:
+            ps, cp = helpers[n.func.id]
+            b = dict(zip(ps, n.args))
+            for kw in n.keywords:
+                if kw.arg:
+                    b[kw.arg] = kw.value
+            axes = [const_str(v) for v in b.values()
+                    if const_str(v) in ('sample', 'observation')]
+            for p_ in cp:
+                v = b.get(p_)
+                if isinstance(v, ast.Name) and v.id in (
+                        'sample_metadata_f', 'observation_metadata_f'):
+                    handed.setdefault(v.id, []).append(n)
+                    if len(axes) == 1:
+                        col.check(v.id.startswith(axes[0]), rule, TABLE,
+                                  'Table.merge', 'axis:%s' % axes[0], n,
+                                  'the %s metadata is merged by %s'
+                                  % (axes[0], v.id),
+                                  '`%s` merges the %s metadata with `%s`: '
+                                  'a custom function for that axis is '
+                                  'ignored and the other axis\' function '
+                                  'decides' % (unparse(n, 60), axes[0],
+                                               v.id))
     for cb in ('sample_metadata_f', 'observation_metadata_f'):
         called = any(isinstance(n, ast.Call) and isinstance(
-            n.func, ast.Name) and n.func.id == cb for n in ast.walk(fn))
+            n.func, ast.Name) and n.func.id == cb for n in ast.walk(fn)) \
+            or cb in handed
         col.check(called, rule, TABLE, 'Table.merge', 'called:%s' % cb, fn,
                   'the callback is invoked',
                   '`%s` is accepted but never called (the general path '
